@@ -48,7 +48,10 @@ def run(tier, replay=None):
     binp = build_harness()
     runs = []
     mask = None
-    if replay:
+    kernel_only = bool(replay) and str(json.load(open(replay))["case"].get("leg", "")).startswith("kernel")
+    if kernel_only:
+        pass                                     # a replay of the kernel-port leg (runner/kport.py): skip the main leg
+    elif replay:
         obj = json.load(open(replay))["case"]
         _, info = rt_ranks(binp, obj.get("salt", ""))
         mask = info["mask"]
@@ -150,4 +153,6 @@ def run(tier, replay=None):
         "(fault evidence, the derived runnable index which is re-derived and cross-checked, and the host_test full-scan counter)" % mask,
         "transient faults: a pass that is not armed runs the faulty intent classes as honest work",
     ]
+    import kport                                 # kernel-port leg: the host-facing WarpKernel (spec/KernelPort.tla)
+    kport.run_leg(ck, binp, tier, replay)
     return ck.finish()
